@@ -1,4 +1,6 @@
 import SqlObjVerif.Lemmas.FailChainD
+import SqlObjVerif.Lemmas.FailOpX
+import SqlObjVerif.Lemmas.FailInhX
 /-!
 # C06 — a write that raises changes nothing
 
@@ -889,5 +891,266 @@ example :
       (.set 1 1 [(0, .bad)] [.parentAttr 0 0 (.ok (some 7))]) none ∧
     (step W5.sch (mkSt [[⟨1, [some 1, some 1]⟩], [⟨1, [some 1, none]⟩]] [inst 0 1 [some 1, some 1], inst 1 1 [some 1, none]])
       (.set 1 1 [(0, .bad)] [.parentAttr 0 0 (.ok (some 7))]) none).1.log = [] := by decide
+
+
+/-! ## the TRANSLATED source
+
+The trees of `Model/Fail.lean` were compiled by hand.  From here on the subject is the Python source itself:
+`vlib/extractors/pymain.py` (`_SO_setValue`, `set`) and `pyinherit.py` (`InheritableSQLObject._create`) translate the
+functions from /repo's AST on every run; `Model/PyFail.lean` / `Model/FailInhX.lean` run the translated programs
+under an injection schedule σ (the database error at the k-th statement; the outcome of every validator call) and
+`Lemmas/FailX*.lean`, `Lemmas/FailInhX*.lean` prove by symbolic execution that the run ends exactly as the
+hand-compiled tree does under σ: same error, same statement log, same tables / link tables / instances (cached
+values, pending values, dirty, obsolete) / registered ids.  `PyFail.stepX` is the translated counterpart of `step`,
+`PyFail.Tied` says which operations it covers (and what a Python call can express: column numbers in range,
+keyword names distinct). -/
+section Translated
+open SqlObjVerif.PyFail (stepX stepXS Tied QuietX viewObs runObs mkW vqOf kwPV setValueF setF Obs obs)
+
+/-- `obj.col = v` on an EAGER class: the translated `_SO_setValue` under σ = the hand tree under σ -/
+theorem C06_translated_setattr_eager_eq_model (sch : Schema) (inj : Option Inj) (props : Nat → Extra) (s : St)
+    (c id col : Nat) (v : In) (_hl : (clsOf sch c).lazy = false) (hcol : col < (clsOf sch c).cols.length) :
+    viewObs (setValueF (mkW sch inj props s c id (vqOf [(col, v)])) col v) =
+      some (runObs (run sch inj (progOf sch s (.setattr c id col v)) s)) :=
+  PyFail.setValueF_eq sch inj props s c id col v hcol
+
+/-- `obj.col = v` on a LAZY class (pending value, dirty; nothing is sent) -/
+theorem C06_translated_setattr_lazy_eq_model (sch : Schema) (inj : Option Inj) (props : Nat → Extra) (s : St)
+    (c id col : Nat) (v : In) (_hl : (clsOf sch c).lazy = true) (hcol : col < (clsOf sch c).cols.length) :
+    viewObs (setValueF (mkW sch inj props s c id (vqOf [(col, v)])) col v) =
+      some (runObs (run sch inj (progOf sch s (.setattr c id col v)) s)) :=
+  PyFail.setValueF_eq sch inj props s c id col v hcol
+
+/-- `obj.set(**kw)` on an EAGER class, ANY number of keywords (plain columns, distinct names): every value is
+    validated before anything is sent, one UPDATE in creation order, then the cached values -/
+theorem C06_translated_set_eager_eq_model (sch : Schema) (inj : Option Inj) (props : Nat → Extra) (s : St)
+    (c id : Nat) (kw : List (Nat × In)) (hl : (clsOf sch c).lazy = false)
+    (hlt : ∀ e ∈ kw, e.1 < (clsOf sch c).cols.length) (hnd : (kw.map (·.1)).Nodup) :
+    viewObs (setF (mkW sch inj props s c id (vqOf kw)) (kwPV kw)) =
+      some (runObs (run sch inj (progOf sch s (.set c id kw [])) s)) :=
+  PyFail.setF_eager_eq sch inj props s c id kw hl hlt hnd
+
+/-- `obj.set(**kw)` on a LAZY class, any number of keywords -/
+theorem C06_translated_set_lazy_eq_model (sch : Schema) (inj : Option Inj) (props : Nat → Extra) (s : St)
+    (c id : Nat) (kw : List (Nat × In)) (hl : (clsOf sch c).lazy = true)
+    (hlt : ∀ e ∈ kw, e.1 < (clsOf sch c).cols.length) (hnd : (kw.map (·.1)).Nodup) :
+    viewObs (setF (mkW sch inj props s c id (vqOf kw)) (kwPV kw)) =
+      some (runObs (run sch inj (progOf sch s (.set c id kw [])) s)) :=
+  PyFail.setF_lazy_eq sch inj props s c id kw hl hlt hnd
+
+/-- `obj.set(**pd)` with EXTRA keywords — names that are not plain columns (`props name` says what each is: unknown,
+    a property of the application that works / raises, a ForeignKey given by object, an inherited column),
+    interleaved arbitrarily with the column keywords in the Python dict `pd` — on an EAGER class: the translated `set`
+    splits the dict as the hand model's `(kw, ex)` and ends as `setProg` does -/
+theorem C06_translated_set_extras_eager_eq_model (sch : Schema) (inj : Option Inj) (props : Nat → Extra) (s : St)
+    (c id : Nat) (pd : List (Nat × In)) (hl : (clsOf sch c).lazy = false) (hnd : (pd.map (·.1)).Nodup) :
+    viewObs (setF (mkW sch inj props s c id (vqOf (pd.filter fun e => e.1 < (clsOf sch c).cols.length))) (kwPV pd)) =
+      some (runObs (run sch inj
+        (setProg sch c id (pd.filter fun e => e.1 < (clsOf sch c).cols.length)
+          ((pd.filter fun e => ¬ e.1 < (clsOf sch c).cols.length).map fun e => props e.1) .done) s)) :=
+  PyFail.setF_extras_eager_eq sch inj props s c id pd hl hnd
+
+/-- … on a LAZY class (an unknown keyword is refused before anything changes) -/
+theorem C06_translated_set_extras_lazy_eq_model (sch : Schema) (inj : Option Inj) (props : Nat → Extra) (s : St)
+    (c id : Nat) (pd : List (Nat × In)) (hl : (clsOf sch c).lazy = true) (hnd : (pd.map (·.1)).Nodup) :
+    viewObs (setF (mkW sch inj props s c id (vqOf (pd.filter fun e => e.1 < (clsOf sch c).cols.length))) (kwPV pd)) =
+      some (runObs (run sch inj
+        (setProg sch c id (pd.filter fun e => e.1 < (clsOf sch c).cols.length)
+          ((pd.filter fun e => ¬ e.1 < (clsOf sch c).cols.length).map fun e => props e.1) .done) s)) :=
+  PyFail.setF_extras_lazy_eq sch inj props s c id pd hl hnd
+
+/-- `Cls(id=…, **pk)`: the translated `__init__` → `_create` (default filling, the missing-keyword TypeError) →
+    `set(**kw)` while `_creating` (the translated `set` itself) → `_SO_finishCreate` (sorted names / values, INSERT,
+    `cache.created`, `_init` read-back) under σ = `createProg` under σ; `kwFullOf` = the keywords given followed by
+    the defaulted columns in column order, `missingOf` = a column without default and defaultSQL is not given -/
+theorem C06_translated_create_eq_model (dflt : Nat → Option In) (dsql : Nat → Bool) (sch : Schema) (inj : Option Inj)
+    (props : Nat → Extra) (s : St) (c : Nat) (id? : Option Nat) (pk : List (Nat × In))
+    (hnd : (pk.map (·.1)).Nodup) (hlt : ∀ e ∈ pk, e.1 < (clsOf sch c).cols.length) :
+    viewObs (PyCreate.createF dflt dsql sch inj props s c (vqOf (PyCreate.kwFullOf dflt (clsOf sch c).cols.length pk)) id? pk) =
+      some (runObs (run sch inj (createProg sch c id? (PyCreate.missingOf dflt dsql (clsOf sch c).cols.length pk)
+        (PyCreate.kwFullOf dflt (clsOf sch c).cols.length pk) [] (fun _ => .done)) s)) :=
+  PyCreate.C06_translated_create_eq_model dflt dsql sch inj props s c id? pk hnd hlt
+
+/-- **inheritable create, one level:** the translated `InheritableSQLObject._create` at class `c` of a chain, with
+    the constructor of the parent level (`C`) behaving as the hand tree of the levels above, ends as `createInh`
+    for the chain from `c` (keyword split along the chain, parent first, own `_create` under
+    `try … except BaseException: self._parent.destroySelf(); raise`) -/
+theorem C06_translated_inheritable_create_level_eq_model (X : InhX.Ctx) (C : InhX.Construct) (w : InhX.FW) (c : Nat)
+    (rest : List Nat) (es : List (InhX.PVal × InhX.PVal)) (tag : Option Nat) (hch : Chain X.sch (c :: rest))
+    (hdep : (c :: rest).length ≤ X.depth) (hnd : (es.map (·.1)).Nodup) (hreq : InhX.Required X (c :: rest) es)
+    (kwv : InhX.PVal)
+    (hkw : kwv = InhX.dictOf X (c :: rest) es tag ∨
+      kwv = .cons (.pair (.str "kw") (InhX.dictOf X (c :: rest) es tag)) .nil)
+    (hcons : ∀ p rest', rest = p :: rest' → ∃ w1 : InhX.FW,
+      w1.st = (run X.sch X.inj (createInh X.sch X.fuel (InhX.levelsOf X (p :: rest') es (some c)) fun _ => .done) w.st).1 ∧
+      C w p (InhX.dictOf X (p :: rest') es (some c)) =
+        InhX.consRes p w1 (run X.sch X.inj (createInh X.sch X.fuel (InhX.levelsOf X (p :: rest') es (some c)) fun _ => .done) w.st).2) :
+    InhX.outOf (InhX.createX X C w c .none kwv) =
+      some (run X.sch X.inj (createInh X.sch X.fuel (InhX.levelsOf X (c :: rest) es tag) fun _ => .done) w.st) :=
+  C06_translated_inhcreate_level_eq_model X C w c rest es tag hch hdep hnd hreq kwv hkw hcons
+
+/-- **inheritable create, any depth:** the translated `_create` calling ITSELF through the constructor along the
+    class chain = `createInh` for the whole chain (the complete post-state, ghost counter included) -/
+theorem C06_translated_inheritable_create_eq_model (X : InhX.Ctx) (w : InhX.FW) (c : Nat) (rest : List Nat)
+    (es : List (InhX.PVal × InhX.PVal)) (tag : Option Nat) (hch : Chain X.sch (c :: rest))
+    (hdep : (c :: rest).length ≤ X.depth) (hnd : (es.map (·.1)).Nodup) (hreq : InhX.Required X (c :: rest) es)
+    (n : Nat) (hn : (c :: rest).length ≤ n) (kwv : InhX.PVal)
+    (hkw : kwv = InhX.dictOf X (c :: rest) es tag ∨
+      kwv = .cons (.pair (.str "kw") (InhX.dictOf X (c :: rest) es tag)) .nil) :
+    InhX.outOf (InhX.createN X n w c .none kwv) =
+      some (run X.sch X.inj (createInh X.sch X.fuel (InhX.levelsOf X (c :: rest) es tag) fun _ => .done) w.st) :=
+  C06_translated_inhcreate_eq_model X w c rest es tag hch hdep hnd hreq n hn kwv hkw
+
+/-- **`destroySelf()`, any schema (inheritable classes included), any depth of cascade:** the translated
+    `SQLObject.destroySelf` (11 loops: own related joins, the dependents loop with its restriction test
+    `….count()`, the `cascade='null'` rows `row.set(**clear)` [+ `syncUpdate()`], the `cascade=True` rows
+    `row.destroySelf()`; `_SO_delete`, `_obsolete`, `cache.expire`) and the translated
+    `InheritableSQLObject.destroySelf` (parent instance first) with dynamic dispatch, every nested `destroySelf()`
+    bound to the translated program itself — run under an exception-injecting semantics in which `count()` and
+    entering `for row in results` SEND a statement — end in exactly the state (ghost counter included) and error
+    `destroyProg` ends in under the same schedule, for every budget of nested calls -/
+theorem C06_translated_destroy_eq_model (sch : Schema) (inj : Option Inj) (isInh : Nat → Bool)
+    (hinh : ∀ c, (clsOf sch c).parent ≠ none → isInh c = true) (fuel c id : Nat) (s : St) :
+    FailDX.destroyI sch inj isInh fuel c id s = some (run sch inj (destroyProg sch fuel c id .done) s) :=
+  FailDX.C06_translated_inhdestroy_eq_model sch inj isInh hinh fuel c id s
+
+/-- … for a schema without inheritable children: the translated `SQLObject.destroySelf` alone -/
+theorem C06_translated_plain_destroy_eq_model (sch : Schema) (hnp : FailDX.NoParent sch) (inj : Option Inj)
+    (fuel c id : Nat) (s : St) :
+    FailDX.destroyF sch inj fuel c id s = FailDX.outCall (run sch inj (destroyProg sch fuel c id .done) s) :=
+  FailDX.C06_translated_destroy_eq_model sch hnp inj fuel c id s
+
+/-- every tied operation: the translated program under σ ends as `step` does -/
+theorem C06_translated_step_eq_model (sch : Schema) (props : Nat → Extra) (s : St) (op : Op) (inj : Option Inj)
+    (hT : Tied sch op) : stepX sch props s op inj = some (runObs (step sch s op inj)) :=
+  PyFail.stepX_eq_model sch props s op inj hT
+
+/-- a run of the translated program of a tied operation IS a run of the hand model -/
+theorem translated_run_is_step (sch : Schema) (props : Nat → Extra) (s : St) (op : Op) (inj : Option Inj)
+    (hT : Tied sch op) (o : Obs) (r : Option Err) (h : stepX sch props s op inj = some (o, r)) :
+    ∃ s', step sch s op inj = (s', r) ∧ obs s' = o := by
+  rw [C06_translated_step_eq_model sch props s op inj hT] at h
+  simp only [runObs, Option.some.injEq, Prod.mk.injEq] at h
+  exact ⟨(step sch s op inj).1, by rw [← h.2], h.1⟩
+
+/-- **C06 about the translated source, syntactic condition.**  For every schema, state, tied operation and
+    schedule satisfying the decidable, purely syntactic `AtomicSyn`: if the TRANSLATED program raises, tables, link
+    tables, every instance and the registered ids are what they were. -/
+theorem C06_translated_failed_op_is_noop_syntactic (sch : Schema) (props : Nat → Extra) (s : St) (op : Op)
+    (inj : Option Inj) (o : Obs) (e : Err) (hT : Tied sch op) (hA : AtomicSyn sch s op inj)
+    (h : stepX sch props s op inj = some (o, some e)) : o.core = s.core := by
+  obtain ⟨s', hs, ho⟩ := translated_run_is_step sch props s op inj hT o _ h
+  rw [← ho]
+  exact C06_failed_op_is_noop_syntactic sch s s' op inj e hA hs
+
+/-- **Frame, about the translated source:** for EVERY operation `stepX` runs and every schedule — a call of the
+    TRANSLATED program during which no completed step of the interpreter (`memStep`: an in-memory effect,
+    `sendStmt`: a statement) changed anything (`QuietX`: the interpreter's own ghost counter did not move) leaves
+    tables, link tables, instances and registrations as they were.  (`PyFail.run_frameX` proves the exactness of
+    the ghost counter for every program of the fragment by induction over the syntax.) -/
+theorem C06_translated_frame (sch : Schema) (props : Nat → Extra) (s : St) (op : Op) (inj : Option Inj)
+    (o : Obs) (r : Option Err) (h : stepX sch props s op inj = some (o, r)) (hq : QuietX sch props s op inj) :
+    o.core = s.core :=
+  PyFail.stepX_quiet_noop sch props s op inj o r h hq
+
+/-- `Atomic`, expressed on the translated program: quiet (its own ghost counter did not move), or the
+    per-operation clauses of `Atomic` -/
+def AtomicX (sch : Schema) (props : Nat → Extra) (s : St) (op : Op) (inj : Option Inj) : Prop :=
+  QuietX sch props s op inj ∨
+  match op with
+  | .setattr _ _ _ _ => True
+  | .set c _ _ ex => noFk ex = true ∧ ((clsOf sch c).lazy = true → hasUnknown ex = true ∨ extrasErr ex = none)
+  | .sync _ _ => True
+  | .create _ _ _ _ => hit inj 2 = none
+  | .createChild _ _ _ => False
+  | .createChain _ => False
+  | .destroy _ _ => False
+
+instance (sch : Schema) (props : Nat → Extra) (s : St) (op : Op) (inj : Option Inj) :
+    Decidable (AtomicX sch props s op inj) := by
+  unfold AtomicX; cases op <;> infer_instance
+
+/-- **C06 (partial: `AtomicX`) about the translated source.**  A tied operation whose TRANSLATED program raises —
+    whatever made it raise, at whatever position of the schedule — leaves tables, link tables, every instance's
+    cached / pending values and flags, and the registered ids exactly as they were. -/
+theorem C06_translated_failed_op_is_noop_partial (sch : Schema) (props : Nat → Extra) (s : St) (op : Op)
+    (inj : Option Inj) (o : Obs) (e : Err) (hT : Tied sch op) (hA : AtomicX sch props s op inj)
+    (h : stepX sch props s op inj = some (o, some e)) : o.core = s.core := by
+  cases hA with
+  | inl hq => exact C06_translated_frame sch props s op inj o _ h hq
+  | inr hA =>
+    obtain ⟨s', hs, ho⟩ := translated_run_is_step sch props s op inj hT o _ h
+    rw [← ho]
+    exact C06_failed_op_is_noop_partial sch s s' op inj e (.inr hA) hs
+
+/-- the translated program of a tied operation either completes or is a no-op -/
+theorem C06_translated_success_or_unchanged (sch : Schema) (props : Nat → Extra) (s : St) (op : Op)
+    (inj : Option Inj) (hT : Tied sch op) (hA : AtomicX sch props s op inj) :
+    ∃ o r, stepX sch props s op inj = some (o, r) ∧ (r = none ∨ o.core = s.core) := by
+  have h := C06_translated_step_eq_model sch props s op inj hT
+  refine ⟨_, _, h, ?_⟩
+  cases hr : (step sch s op inj).2 with
+  | none => exact .inl (by simp [runObs, hr])
+  | some e =>
+    right
+    exact C06_translated_failed_op_is_noop_partial sch props s op inj _ e hT hA (by rw [h]; simp [runObs, hr])
+
+/-- non-vacuity: a tied two-keyword `set()` whose second value is invalid; the translated program raises `Invalid`
+    (evaluated: the interpreter runs the translated `set`) -/
+example : Tied [{ cols := [{}, {}] }] (.set 0 1 [(0, .ok (some 1)), (1, .bad)] []) ∧
+    (stepX [{ cols := [{}, {}] }] (fun _ => .unknown) (mkSt [[⟨1, [some 7, some 8]⟩]] [inst 0 1 [some 7, some 8]])
+      (.set 0 1 [(0, .ok (some 1)), (1, .bad)] []) none).map (·.2) = some (some .invalid) := by
+  constructor
+  · decide
+  · decide +kernel
+
+/-- the witness `C06_set_fk_by_object_full_FALSE`, replayed through the TRANSLATED `set` (kernel evaluation of the
+    interpreter on the translated program): the ForeignKey given by object is written by its own UPDATE before the
+    UPDATE of the plain columns is rejected — so the full-strength statement is false of the translated source too -/
+theorem C06_translated_set_fk_by_object_full_FALSE :
+    ¬ (∀ (sch : Schema) (props : Nat → Extra) (s : St) (op : Op) (inj : Option Inj) (o : Obs) (e : Err),
+        Tied sch op → stepX sch props s op inj = some (o, some e) → o.core = s.core) := by
+  intro h
+  have := h [{ cols := [{}, { unique := true }] }] (fun _ => .unknown)
+    (mkSt [[⟨1, [some 1, some 1]⟩, ⟨2, [some 1, some 2]⟩]] [inst 0 1 [some 1, some 1]])
+    (.set 0 1 [(1, .ok (some 2))] [.fk 0 (some 2)]) none
+    (obs (step [{ cols := [{}, { unique := true }] }]
+      (mkSt [[⟨1, [some 1, some 1]⟩, ⟨2, [some 1, some 2]⟩]] [inst 0 1 [some 1, some 1]])
+      (.set 0 1 [(1, .ok (some 2))] [.fk 0 (some 2)]) none).1) .duplicate (by decide) (by decide +kernel)
+  revert this
+  decide
+
+/-- the witness `C06_create_db_error_after_insert_full_FALSE` through the TRANSLATED constructor: the error injected at
+    statement 2 (the read-back SELECT of `_init`) leaves the inserted row and the registered instance -/
+theorem C06_translated_create_db_error_after_insert_full_FALSE :
+    Tied [{ cols := [{}] }] (.create 0 false [(0, .ok (some 5))] []) ∧
+    (stepX [{ cols := [{}] }] (fun _ => .unknown) (mkSt [[]] []) (.create 0 false [(0, .ok (some 5))] [])
+      (some ⟨2, .operational⟩)).map (fun r => (r.1.core.tabs, r.1.core.reg, r.2)) =
+      some ([[⟨1, [some 5]⟩]], [(0, 1)], some .operational) := by
+  constructor
+  · decide
+  · decide +kernel
+
+/-- the witnesses `C06_destroy_refused_witness` / `C06_destroy_db_error_mid_cascade_full_FALSE` /
+    `C06_inheritable_destroy_refused_full_FALSE` through the TRANSLATED `destroySelf`: refused after C#1 was nulled;
+    error injected at statement 3; the parent row of an inheritable child deleted before the child's refusal -/
+theorem C06_translated_destroy_full_FALSE :
+    (stepX W1.sch (fun _ => .unknown) W1.s (.destroy 0 1) none).map (fun r => (r.1.core.tabs, r.2)) =
+      some ([[⟨1, [some 7]⟩], [⟨1, [none]⟩], [⟨1, [some 1]⟩]], some .integrity) ∧
+    (stepX W1.sch (fun _ => .unknown) W1.s (.destroy 0 1) (some ⟨3, .operational⟩)).map (fun r => (r.1.core.tabs, r.2)) =
+      some ([[⟨1, [some 7]⟩], [⟨1, [none]⟩], [⟨1, [some 1]⟩]], some .operational) ∧
+    (stepX (W5.sch ++ [{ cols := [{ fk := some (1, .restrict) }] }]) (fun _ => .unknown)
+        (mkSt [[⟨1, [some 1, some 1]⟩], [⟨1, [some 1, none]⟩], [⟨1, [some 1]⟩]]
+          [inst 0 1 [some 1, some 1], inst 1 1 [some 1, none], inst 2 1 [some 1]]) (.destroy 1 1) none).map
+        (fun r => (r.1.core.tabs, r.2)) =
+      some ([[], [⟨1, [some 1, none]⟩], [⟨1, [some 1]⟩]], some .integrity) := by
+  refine ⟨?_, ?_, ?_⟩ <;> decide +kernel
+
+/-- … and it is quiet in the translated program's own ghost counter -/
+example : AtomicX [{ cols := [{}, {}] }] (fun _ => .unknown) (mkSt [[⟨1, [some 7, some 8]⟩]] [inst 0 1 [some 7, some 8]])
+      (.set 0 1 [(0, .ok (some 1)), (1, .bad)] []) none := by
+  left; decide +kernel
+
+end Translated
 
 end SqlObjVerif.Fail
